@@ -728,3 +728,11 @@ Lemma reversed_order_counterexample_none :
                   (p_init unit tt) [OpWrite [x2a]; OpFlush [LInner; LComp; LOuter]] in
   transport st = [] /\ written st = [x2a] /\ inner st = [x2a].
 Proof. vm_compute. repeat split. Qed.
+
+(* a concrete run of the decoder with the limit and the buffers of the code *)
+Lemma framing_example :
+  let ms := [[]; [x01; x02; x03]; repeat xff 300] in
+  let s := encode_all ms in
+  feed_all go_dconf go_d_init [firstn 2 s; firstn 4 (skipn 2 s); skipn 6 s]
+  = ({| ph := PLen v0; consumed := 307; cap := go_decoder_initial_buffer; allocated := 0 |}, ms).
+Proof. vm_compute. reflexivity. Qed.
